@@ -56,6 +56,13 @@ def cases(tier, seed):
                 for vs in itertools.product(["ok", "block", "rewrite"], repeat=k * turns):
                     i += 1
                     yield dict(_mk("v1", mode, k, 1, turns, vs, cid="e%d" % i), id=i)
+    # the same matrices with rail exceptions instead of refusals (k=2, 2 turns): an `exception` reply is not part of the
+    # message list the caller resends, so the turn after a rejected (possibly rewritten-then-rejected) turn exercises the
+    # history cache in a different way
+    for mode in ("dialog", "single_call", "general", "passthrough"):
+        for vs in itertools.product(["ok", "block", "rewrite"], repeat=4):
+            i += 1
+            yield dict(_mk("v1", mode, 2, 1, 2, vs, exc=True, cid="x%d" % i), id=i)
     for k in (1, 2):
         for turns in (1, 2):
             for vs in itertools.product(["ok", "block"], repeat=k * turns):
